@@ -3,6 +3,8 @@ import I18n.Lemmas.FmtCheckPreimage
 import I18n.Generated.TagSites
 import I18n.Lemmas.FmtCheckProbes
 import I18n.Lemmas.FmtCheckNumbered
+import I18n.Lemmas.FmtCheckBrace
+import I18n.Lemmas.FmtCheckBraceRender
 /-!
 # C14 — translations are flagged iff their format arguments disagree
 
@@ -86,6 +88,20 @@ theorem probes_pin :
     Generated.FmtCheckTables.perlArgsProbes.all (fun p =>
       summarize (checkArgsPerlBrace probePfx "msgid".toList p.1 "msgstr".toList p.2.1 p.2.2.1) == some p.2.2.2) = true :=
   ⟨checkerNames_pin, lastInt_probes_pin, cArgs_probes_pin, pyArgs_probes_pin, braceArgs_probes_pin, perlArgs_probes_pin⟩
+
+/-- **The composition with C13's parser models, re-computed in the kernel on the probed strings**: running the python-brace /
+    perl-brace parser MODEL on the strings of the probe table and converting (`braceSigOf`, `perlSigOf`) gives exactly the
+    signatures the translator extracted from the REAL parser objects — keys, dict order, type sets of every use, `len`. -/
+theorem string_probes_pin :
+    (((Generated.FmtCheckTables.braceArgsStrings.zip (evens Generated.FmtCheckTables.braceArgsProbes)).all fun p =>
+      sigArgsOf (pyBraceParse p.1.1.toList) == some (p.2.1.args, p.2.1.nitems) &&
+      sigArgsOf (pyBraceParse p.1.2.toList) == some (p.2.2.1.args, p.2.2.1.nitems)) = true ∧
+     Generated.FmtCheckTables.braceArgsStrings.length * 2 = Generated.FmtCheckTables.braceArgsProbes.length) ∧
+    (((Generated.FmtCheckTables.perlArgsStrings.zip (evens Generated.FmtCheckTables.perlArgsProbes)).all fun p =>
+      perlArgsOf (perlBraceParse p.1.1.toList) == some (sortBy strLt p.2.1.args, p.2.1.nitems) &&
+      perlArgsOf (perlBraceParse p.1.2.toList) == some (sortBy strLt p.2.2.1.args, p.2.2.1.nitems)) = true ∧
+     Generated.FmtCheckTables.perlArgsStrings.length * 2 = Generated.FmtCheckTables.perlArgsProbes.length) :=
+  ⟨braceStrings_probes_pin, perlStrings_probes_pin⟩
 
 /-! ## C -/
 
@@ -839,6 +855,258 @@ theorem dispatch_single (ctx : Ctx) (fl : Flags) (name : List Char) (m : KMsg) (
   simp only [checkFormats, sortBy, List.foldr_cons, List.foldr_nil, insertBy, runAll, h, ↓reduceIte]
   cases m.check ctx fl <;> simp
 
+/-! ## The brace kinds on STRINGS: composition with the parser models of C13 -/
+
+/-- **The conversion between what C13's parser model reports and what the comparator reads is faithful**: the same keys in the
+    same (dict insertion) order; under every key the type sets of its uses, in order; `len(fmt)`; intersection, emptiness and
+    the printed type names commute with it; both directions are injective. -/
+theorem brace_conversion_faithful (r : PyBrace.Result) :
+    (braceSigOf r).args.map (·.1) = r.argMap.map (fun p => keyOfBrace p.1) ∧
+    (∀ k as, (k, as) ∈ r.argMap → (keyOfBrace k, as.map fun a => tyOfBrace a.types) ∈ (braceSigOf r).args) ∧
+    (braceSigOf r).nitems = r.items.length ∧
+    (∀ a b : PyBrace.Key, keyOfBrace a = keyOfBrace b → a = b) ∧
+    (∀ a b : PyBrace.TySet, tyOfBrace a = tyOfBrace b → a = b) ∧
+    (∀ a b : PyBrace.TySet, (tyOfBrace a).inter (tyOfBrace b) = tyOfBrace (a.inter b)) ∧
+    (∀ a : PyBrace.TySet, (tyOfBrace a).nonempty = !a.isEmpty) ∧
+    (∀ a : PyBrace.TySet, (tyOfBrace a).names = a.names.map String.toList) :=
+  ⟨braceSigOf_keys r, braceSigOf_uses r, rfl, fun _ _ => keyOfBrace_injective, fun _ _ => tyOfBrace_injective,
+    tyOfBrace_inter, tyOfBrace_nonempty, tyOfBrace_names⟩
+
+/-- … and for an accepted string the comparator's reference view is exactly the parser's "argument `k` has the common type set
+    `c`"; the signature is well formed for the comparator. -/
+theorem brace_signature_of_string {s : List Char} {r : PyBrace.Result} (h : PyBrace.parse s = .ok r) :
+    BraceWf (braceSigOf r) ∧
+    (∀ k c, valueAt (braceNamed (braceSigOf r)) (keyOfBrace k) = some (tyOfBrace c) ↔ HasArg r k c) ∧
+    (∀ k, keyOfBrace k ∈ keys (braceNamed (braceSigOf r)) ↔ k ∈ r.argMap.map (·.1)) :=
+  ⟨braceWf_of_sigOK (parse_sigOK h), braceNamed_value (parse_sigOK h), braceNamed_keys r⟩
+
+/-- **python-brace, `args_tags_iff` on strings.**  For any two strings the python-brace parser (C13's model) accepts,
+    `check_args` on what it reports returns (no exception) exactly: a type-mismatch tag for every common argument whose type sets
+    are disjoint, an unknown-argument tag for every argument only in the translation, a missing-argument tag for every argument
+    only in the source unless the single one is tolerated. -/
+theorem pybrace_args_tags_iff_strings (pfx : Extra) (srcLoc dstLoc : List Char) (omittedOk : Bool) {s s' : List Char}
+    {r r' : PyBrace.Result} (h : PyBrace.parse s = .ok r) (h' : PyBrace.parse s' = .ok r') :
+    ∃ tags, checkArgsPyBrace pfx srcLoc (braceSigOf r) dstLoc (braceSigOf r') omittedOk = .ok tags ∧
+      ∀ t, t ∈ tags ↔
+        (∃ k a b, TypeDiffKey Compatible (braceNamed (braceSigOf r)) (braceNamed (braceSigOf r')) k a b ∧
+          t = braceTypeTag pfx srcLoc dstLoc a b) ∨
+        (∃ k, Unknown (braceNamed (braceSigOf r)) (braceNamed (braceSigOf r')) k ∧ t = braceUnknownTag pfx srcLoc dstLoc k) ∨
+        (∃ k, Missing (braceNamed (braceSigOf r)) (braceNamed (braceSigOf r')) k ∧
+          braceTolerated (braceSigOf r) (braceSigOf r') omittedOk = false ∧ t = braceMissingTag pfx srcLoc dstLoc k) :=
+  pybrace_args_tags_iff pfx srcLoc dstLoc omittedOk _ _ (braceWf_of_sigOK (parse_sigOK h)) (braceWf_of_sigOK (parse_sigOK h'))
+
+/-- **python-brace, `reorder_silent` on strings**: if the translation has the same arguments (numbers and names) with the same
+    type sets as the source — the fields in any order, any number of times, with whatever text in between — nothing is flagged. -/
+theorem pybrace_reorder_silent (pfx : Extra) (srcLoc dstLoc : List Char) (omittedOk : Bool) {s s' : List Char}
+    {r r' : PyBrace.Result} (h : PyBrace.parse s = .ok r) (h' : PyBrace.parse s' = .ok r')
+    (hsame : ∀ k c, HasArg r k c ↔ HasArg r' k c) :
+    checkArgsPyBrace pfx srcLoc (braceSigOf r) dstLoc (braceSigOf r') omittedOk = .ok [] := by
+  have hs := parse_sigOK h
+  have hs' := parse_sigOK h'
+  apply pybrace_same_signature_silent pfx srcLoc dstLoc omittedOk _ _ (braceWf_of_sigOK hs) (braceWf_of_sigOK hs')
+  have hkeys : ∀ k, k ∈ r.argMap.map (·.1) ↔ k ∈ r'.argMap.map (·.1) := by
+    intro k
+    constructor
+    · intro hk
+      obtain ⟨p, hp, rfl⟩ := List.mem_map.1 hk
+      obtain ⟨hne, c, _, hall⟩ := hs.2 p.1 p.2 hp
+      obtain ⟨as', hm', _⟩ := (hsame p.1 c).1 ⟨p.2, hp, hne, hall⟩
+      exact List.mem_map.2 ⟨(p.1, as'), hm', rfl⟩
+    · intro hk
+      obtain ⟨p, hp, rfl⟩ := List.mem_map.1 hk
+      obtain ⟨hne, c, _, hall⟩ := hs'.2 p.1 p.2 hp
+      obtain ⟨as', hm', _⟩ := (hsame p.1 c).2 ⟨p.2, hp, hne, hall⟩
+      exact List.mem_map.2 ⟨(p.1, as'), hm', rfl⟩
+  have hkeyform : ∀ (q : PyBrace.Result) (k : BKey), k ∈ keys (braceNamed (braceSigOf q)) → ∃ k0, k = keyOfBrace k0 := by
+    intro q k hk
+    have : keys (braceNamed (braceSigOf q)) = (q.argMap.map (·.1)).map keyOfBrace := by
+      unfold braceNamed; rw [keys_viewOf, braceSigOf_keys]; simp
+    rw [this] at hk
+    obtain ⟨k0, _, rfl⟩ := List.mem_map.1 hk
+    exact ⟨k0, rfl⟩
+  constructor
+  · intro k
+    constructor
+    · intro hk
+      obtain ⟨k0, rfl⟩ := hkeyform r k hk
+      exact (braceNamed_keys r' k0).2 ((hkeys k0).1 ((braceNamed_keys r k0).1 hk))
+    · intro hk
+      obtain ⟨k0, rfl⟩ := hkeyform r' k hk
+      exact (braceNamed_keys r k0).2 ((hkeys k0).2 ((braceNamed_keys r' k0).1 hk))
+  · intro k a b ha hb
+    obtain ⟨k0, rfl⟩ := hkeyform r k ((get_isSome_iff k _).1 ⟨a, ha⟩)
+    -- the source's common set for k0
+    have hk0 : k0 ∈ r.argMap.map (·.1) := (braceNamed_keys r k0).1 ((get_isSome_iff _ _).1 ⟨a, ha⟩)
+    obtain ⟨p, hp, rfl⟩ := List.mem_map.1 hk0
+    obtain ⟨hne, c, hc, hall⟩ := hs.2 p.1 p.2 hp
+    have hA : HasArg r p.1 c := ⟨p.2, hp, hne, hall⟩
+    have ha' := (braceNamed_value hs p.1 c).2 hA
+    have hb' := (braceNamed_value hs' p.1 c).2 ((hsame p.1 c).1 hA)
+    rw [ha] at ha'; rw [hb] at hb'
+    cases ha'; cases hb'
+    show ((tyOfBrace c).inter (tyOfBrace c)).nonempty = true
+    rw [tyOfBrace_inter, tyOfBrace_nonempty]
+    cases c with
+    | mk x y z => cases x <;> cases y <;> cases z <;> simp_all [PyBrace.TySet.inter, PyBrace.TySet.isEmpty]
+
+/-- **python-brace, `reorder_silent` over RENDERED strings.**  Render any two item lists made of brace-free literal text and plain
+    fields `{name}` / `{index}` (identifiers; decimal indices within `SSIZE_MAX`): both renderings are accepted by the parser, and
+    if the fields of the translation are those of the source in any order (a permutation of the field names — in particular any
+    reordering expressible with numbered or named fields), nothing is flagged. -/
+theorem pybrace_reorder_silent_rendered (pfx : Extra) (srcLoc dstLoc : List Char) (omittedOk : Bool) {a b : List PlainItem}
+    (ha : PlainClean a) (hb : PlainClean b) (hperm : (fieldNames b).Perm (fieldNames a)) :
+    ∃ r r', PyBrace.parse (renderPlain a) = .ok r ∧ PyBrace.parse (renderPlain b) = .ok r' ∧
+      checkArgsPyBrace pfx srcLoc (braceSigOf r) dstLoc (braceSigOf r') omittedOk = .ok [] := by
+  obtain ⟨r, hr, hargs⟩ := parse_renderPlain ha
+  obtain ⟨r', hr', hargs'⟩ := parse_renderPlain hb
+  refine ⟨r, r', hr, hr', pybrace_reorder_silent pfx srcLoc dstLoc omittedOk hr hr' fun k c => ?_⟩
+  rw [hargs, hargs']
+  have := (hperm.map keyOfName |>.mem_iff (a := k))
+  constructor
+  · rintro ⟨hc, hk⟩; exact ⟨hc, by exact (show k ∈ (fieldNames b).map keyOfName from this.2 hk)⟩
+  · rintro ⟨hc, hk⟩; exact ⟨hc, this.1 hk⟩
+
+/-- **python-brace: no exception leaves `check_message` — for any context, flags and STRINGS** (no hypothesis left: the parser
+    raises only its own errors, C13 `brace_error_own`, and what it reports is well formed for `check_args`). -/
+theorem pybrace_check_message_nocrash_strings (ctx : Ctx) (msg : Msg (List Char)) (fl : Flags) :
+    ∃ t, checkMessage pyBraceStrBackend ctx msg fl = .ok t := by
+  apply checkMessage_total pyBraceStrBackend BraceWf
+  · intro pfx sl f dl g ok hf hg
+    exact ⟨_, checkArgsPyBrace_eq pfx sl f dl g ok hf hg⟩
+  · have hstr : ∀ s, StrOk pyBraceStrBackend BraceWf s := fun s =>
+      ⟨fun e => pyBraceParse_nocrash s e, fun f hf => pyBraceParse_wf hf⟩
+    exact ⟨hstr _, fun s _ => hstr s, hstr _, fun p _ => hstr p.2⟩
+
+/-- **python-brace, the statement's first sentence on strings**: a non-plural message of the domain whose `msgid` and non-empty
+    `msgstr` the parser accepts reports exactly the argument diagnostics of `check_args` on the two parsed signatures. -/
+theorem pybrace_plain_message_strings (ctx : Ctx) (msg : Msg (List Char)) (fl : Flags) (hdom : InDomain ctx fl)
+    (hpl : msg.msgidPlural = none) (hforms : msg.msgstrPlural = []) {r r' : PyBrace.Result}
+    (h0 : PyBrace.parse msg.msgid = .ok r) (h1 : PyBrace.parse msg.msgstr = .ok r') (hne : msg.msgstr ≠ []) :
+    checkMessage pyBraceStrBackend ctx msg fl =
+      checkArgsPyBrace msg.pfx "msgid".toList (braceSigOf r) "msgstr".toList (braceSigOf r') false := by
+  obtain ⟨tags, htags, _⟩ := pybrace_args_tags_iff_strings msg.pfx "msgid".toList "msgstr".toList false h0 h1
+  have ht : pyBraceStrBackend.truthy msg.msgstr = true := by
+    show (!msg.msgstr.isEmpty) = true
+    cases hm : msg.msgstr with
+    | nil => exact absurd hm hne
+    | cons _ _ => rfl
+  have hp0 : pyBraceStrBackend.parse msg.msgid = .ok (braceSigOf r) := by show pyBraceParse _ = _; unfold pyBraceParse; rw [h0]
+  have hp1 : pyBraceStrBackend.parse msg.msgstr = .ok (braceSigOf r') := by show pyBraceParse _ = _; unfold pyBraceParse; rw [h1]
+  rw [plain_message pyBraceStrBackend ctx msg fl hdom hpl hforms _ _ hp0 ht hp1 tags htags, htags]
+  rfl
+
+/-- **python-brace, `invalid_msgstr_error` on strings**: a non-empty `msgstr` on which the parser raises one of its own error
+    classes (C13: `Error`, `ConversionError`, `FormatError`, `FormatTypeMismatch`, `ArgumentNumberingMixture`,
+    `ArgumentRangeError`, `ArgumentTypeMismatch` — and it raises nothing else) is reported as
+    `python-brace-format-string-error`, and nothing else is reported. -/
+theorem pybrace_invalid_msgstr_error (ctx : Ctx) (msg : Msg (List Char)) (fl : Flags) (hdom : InDomain ctx fl)
+    (hpl : msg.msgidPlural = none) (hforms : msg.msgstrPlural = []) {r : PyBrace.Result} (h0 : PyBrace.parse msg.msgid = .ok r)
+    (hne : msg.msgstr ≠ []) {e : PyBrace.PErr} (h1 : PyBrace.parse msg.msgstr = .error e) :
+    checkMessage pyBraceStrBackend ctx msg fl = .ok [⟨"python-brace-format-string-error", [msg.pfx]⟩] := by
+  obtain ⟨c, a, rfl⟩ := I18n.Props.C13.brace_error_own h1
+  have ht : pyBraceStrBackend.truthy msg.msgstr = true := by
+    show (!msg.msgstr.isEmpty) = true
+    cases hm : msg.msgstr with
+    | nil => exact absurd hm hne
+    | cons _ _ => rfl
+  have hp0 : pyBraceStrBackend.parse msg.msgid = .ok (braceSigOf r) := by show pyBraceParse _ = _; unfold pyBraceParse; rw [h0]
+  have hp1 : pyBraceStrBackend.parse msg.msgstr = .own := (pyBraceParse_own_iff _).2 ⟨c, a, h1⟩
+  rw [invalid_msgstr_error pyBraceStrBackend ctx msg fl hdom hpl hforms _ hp0 ht hp1]
+  rfl
+
+open I18n.Spec.PerlBraceRef in
+/-- **perl-brace, `args_tags_iff` on strings**, against C13's declarative reference: for well-formed strings (every `{` opens a
+    `{identifier}` placeholder) an unknown-argument tag for every identifier that is a placeholder of the translation but not of
+    the source, a missing-argument tag for every identifier that is a placeholder of the source but not of the translation
+    (unless the single one is tolerated), nothing else, no exception. -/
+theorem perlbrace_args_tags_iff_strings (pfx : Extra) (srcLoc dstLoc : List Char) (omittedOk : Bool) {s s' : List Char}
+    (h : WellFormed s) (h' : WellFormed s') :
+    ∃ r r' tags, PerlBrace.parse s = .ok r ∧ PerlBrace.parse s' = .ok r' ∧
+      checkArgsPerlBrace pfx srcLoc (perlSigOf r) dstLoc (perlSigOf r') omittedOk = .ok tags ∧
+      ∀ t, t ∈ tags ↔
+        (∃ k, IsArgument s' k ∧ ¬ IsArgument s k ∧ t = perlUnknownTag pfx srcLoc dstLoc k) ∨
+        (∃ k, IsArgument s k ∧ ¬ IsArgument s' k ∧ perlTolerated (perlSigOf r) (perlSigOf r') omittedOk = false ∧
+          t = perlMissingTag pfx srcLoc dstLoc k) := by
+  obtain ⟨r, hr, _, hargs⟩ := perlBraceParse_ok h
+  obtain ⟨r', hr', _, hargs'⟩ := perlBraceParse_ok h'
+  obtain ⟨tags, ht, hiff⟩ := perlbrace_args_tags_iff pfx srcLoc dstLoc omittedOk (perlSigOf r) (perlSigOf r')
+  refine ⟨r, r', tags, hr, hr', ht, fun t => ?_⟩
+  rw [hiff t]
+  unfold Unknown Missing
+  simp only [keys_perlNamed, hargs, hargs', and_assoc]
+
+open I18n.Spec.PerlBraceRef in
+/-- perl-brace: the tolerated omission, on strings: the caller allows it and exactly one placeholder identifier of the source is
+    not a placeholder of the translation -/
+theorem perlbrace_tolerated_iff_strings {s s' : List Char} (h : WellFormed s) (h' : WellFormed s') (omittedOk : Bool) :
+    ∃ r r', PerlBrace.parse s = .ok r ∧ PerlBrace.parse s' = .ok r' ∧
+      (perlTolerated (perlSigOf r) (perlSigOf r') omittedOk = true ↔
+        omittedOk = true ∧ ∃ k, (IsArgument s k ∧ ¬ IsArgument s' k) ∧ ∀ k', IsArgument s k' ∧ ¬ IsArgument s' k' → k' = k) := by
+  obtain ⟨r, hr, _, hargs⟩ := perlBraceParse_ok h
+  obtain ⟨r', hr', _, hargs'⟩ := perlBraceParse_ok h'
+  refine ⟨r, r', hr, hr', ?_⟩
+  rw [perlbrace_tolerated_iff _ _ (perlSigOf_wf r)]
+  unfold OnlyMissing Missing
+  simp only [keys_perlNamed, hargs, hargs']
+
+open I18n.Spec.PerlBraceRef in
+/-- **perl-brace, `reorder_silent` on strings**: two well-formed strings with the same placeholder identifiers — in any order, any
+    number of times — are never flagged. -/
+theorem perlbrace_reorder_silent (pfx : Extra) (srcLoc dstLoc : List Char) (omittedOk : Bool) {s s' : List Char}
+    (h : WellFormed s) (h' : WellFormed s') (hsame : ∀ w, IsArgument s w ↔ IsArgument s' w) :
+    ∃ r r', PerlBrace.parse s = .ok r ∧ PerlBrace.parse s' = .ok r' ∧
+      checkArgsPerlBrace pfx srcLoc (perlSigOf r) dstLoc (perlSigOf r') omittedOk = .ok [] := by
+  obtain ⟨r, hr, _, hargs⟩ := perlBraceParse_ok h
+  obtain ⟨r', hr', _, hargs'⟩ := perlBraceParse_ok h'
+  refine ⟨r, r', hr, hr', perlbrace_same_signature_silent pfx srcLoc dstLoc omittedOk _ _ ?_⟩
+  intro k
+  rw [hargs, hargs', hsame]
+
+open I18n.Spec.PerlBraceRef in
+/-- **perl-brace, `reorder_silent` over RENDERED strings**: render any two item lists (literal runs without `{`, placeholders
+    `{identifier}`) whose placeholders are a permutation of each other — whatever the literal text, wherever it stands: the
+    renderings are accepted and nothing is flagged. -/
+theorem perlbrace_reorder_silent_rendered (pfx : Extra) (srcLoc dstLoc : List Char) (omittedOk : Bool)
+    {a b : List PerlBrace.Item} (ha : PerlClean a) (hb : PerlClean b)
+    (hperm : (a.filter fun i => match i with | .field _ => true | _ => false).Perm
+             (b.filter fun i => match i with | .field _ => true | _ => false)) :
+    ∃ r r', PerlBrace.parse (PerlBrace.itemsText a) = .ok r ∧ PerlBrace.parse (PerlBrace.itemsText b) = .ok r' ∧
+      checkArgsPerlBrace pfx srcLoc (perlSigOf r) dstLoc (perlSigOf r') omittedOk = .ok [] := by
+  obtain ⟨wa, aa⟩ := perl_render_spec a ha
+  obtain ⟨wb, ab⟩ := perl_render_spec b hb
+  apply perlbrace_reorder_silent pfx srcLoc dstLoc omittedOk wa wb
+  intro w
+  rw [aa w, ab w]
+  have := hperm.mem_iff (a := PerlBrace.Item.field w)
+  simpa using this
+
+open I18n.Spec.PerlBraceRef in
+/-- **perl-brace, `invalid_msgstr_error` on strings**: a non-empty `msgstr` in which some `{` does not open a `{identifier}`
+    placeholder is reported as `perl-brace-format-string-error`, and nothing else is reported. -/
+theorem perlbrace_invalid_msgstr_error (ctx : Ctx) (msg : Msg (List Char)) (fl : Flags) (hdom : InDomain ctx fl)
+    (hpl : msg.msgidPlural = none) (hforms : msg.msgstrPlural = []) (h0 : WellFormed msg.msgid)
+    (hne : msg.msgstr ≠ []) (h1 : ¬ WellFormed msg.msgstr) :
+    checkMessage perlBraceStrBackend ctx msg fl = .ok [⟨"perl-brace-format-string-error", [msg.pfx]⟩] := by
+  obtain ⟨r, _, hp0, _⟩ := perlBraceParse_ok h0
+  have ht : perlBraceStrBackend.truthy msg.msgstr = true := by
+    show (!msg.msgstr.isEmpty) = true
+    cases hm : msg.msgstr with
+    | nil => exact absurd hm hne
+    | cons _ _ => rfl
+  have hp1 : perlBraceStrBackend.parse msg.msgstr = .own := (perlBraceParse_own_iff _).2 h1
+  rw [invalid_msgstr_error perlBraceStrBackend ctx msg fl hdom hpl hforms _ hp0 ht hp1]
+  rfl
+
+/-- **perl-brace: no exception leaves `check_message`, for any context, flags and strings** -/
+theorem perlbrace_check_message_nocrash_strings (ctx : Ctx) (msg : Msg (List Char)) (fl : Flags) :
+    ∃ t, checkMessage perlBraceStrBackend ctx msg fl = .ok t := by
+  apply checkMessage_total perlBraceStrBackend (fun _ => True)
+  · intro pfx sl f dl g ok _ _
+    exact ⟨_, checkArgsPerlBrace_eq pfx sl f dl g ok⟩
+  · have hstr : ∀ s, StrOk perlBraceStrBackend (fun _ => True) s := fun s =>
+      ⟨fun e => perlBraceParse_nocrash s e, fun _ _ => trivial⟩
+    exact ⟨hstr _, fun s _ => hstr s, hstr _, fun p _ => hstr p.2⟩
+
 /-! ## Non-vacuity -/
 
 def pfx0 : Extra := .safe "msgid x:".toList
@@ -883,6 +1151,26 @@ example : (match pyParse "%(n)d of %(name)s".toList, pyParse "%(name)s: %(n)d".t
 example : (match pyParse "%(n)d of %(name)s".toList, pyParse "%(nom)s: %(n)d".toList with
     | .ok a, .ok c => (checkArgsPython pfx0 "msgid".toList a "msgstr".toList c false).map (fun (ts : List TagCall) => ts.map TagCall.name)
     | _, _ => .error .ValueError) = .ok ["python-format-string-unknown-argument", "python-format-string-missing-argument"] := by rfl
+/-- the brace kinds on raw strings (the parser models of C13 run inside the kernel): reordered fields are silent, a retyped field
+    and a renamed placeholder are flagged, the fix-56d8ddf witness gives two tags -/
+example : (match pyBraceParse "{0} of {name}".toList, pyBraceParse "{name}: {0}".toList with
+    | .ok a, .ok c => summarize (checkArgsPyBrace pfx0 "msgid".toList a "msgstr".toList c false)
+    | _, _ => none) = some [] := by decide +kernel
+example : (match pyBraceParse "{0} of {0:d} done".toList, pyBraceParse "{0:s} gotowe".toList with
+    | .ok a, .ok c => summarize (checkArgsPyBrace pfx0 "msgid".toList a "msgstr".toList c false)
+    | _, _ => none) = some [("python-brace-format-string-argument-type-mismatch", [])] := by decide +kernel
+example : (match pyBraceParse "{0} {foo}".toList, pyBraceParse "x".toList with
+    | .ok a, .ok c => summarize (checkArgsPyBrace pfx0 "msgid".toList a "msgstr".toList c false)
+    | _, _ => none) =
+    some [("python-brace-format-string-missing-argument", [0]), ("python-brace-format-string-missing-argument", [])] := by decide +kernel
+example : (match perlBraceParse "{a} and {b}".toList, perlBraceParse "{b}, {c}".toList with
+    | .ok a, .ok c => summarize (checkArgsPerlBrace pfx0 "msgid".toList a "msgstr".toList c false)
+    | _, _ => none) =
+    some [("perl-brace-format-string-unknown-argument", []), ("perl-brace-format-string-missing-argument", [])] := by decide +kernel
+/-- rendering: `{0} of {name}` and its reordering `{name}: {0}` -/
+example : renderPlain [.field "0".toList, .lit " of ".toList, .field "name".toList] = "{0} of {name}".toList := by rfl
+example : (fieldNames [PlainItem.field "name".toList, .lit ": ".toList, .field "0".toList]).Perm
+    (fieldNames [.field "0".toList, .lit " of ".toList, .field "name".toList]) := List.Perm.swap _ _ _
 /-- the cascade -/
 example : (pluralPlan cBackend none none 0 default [1]).srcLoc = "msgid".toList := by rfl
 example : (pluralPlan cBackend none none 0 default [0, 7]).omittedOk = true := by rfl
